@@ -480,9 +480,91 @@ pub fn sweep_case(ctx: &Ctx, t: &[&str]) -> String {
         Ok(Ok(bi)) => {
             write!(out, "ld=ok({}:{}:{});", bi.start_address() as i64 - p as i64, bi.end_address() as i64 - p as i64, bi.total_size()).unwrap();
             sweep_bi(&mut out, p, &bi);
+            // a TWIN of the region that differs only in the alignment padding behind each tag's declared size: every typed
+            // view must compare equal to its twin (`==` / PartialEq is a safe accessor too; padding is never exposed)
+            if !flush_start && bytes.len() + 16 <= ctx.arena2.capacity() {
+                if let Some(w) = twin_eq(ctx, &bytes, &bi) {
+                    write!(out, "eqpad={};", w).unwrap();
+                }
+            }
         }
     }
     out
+}
+
+fn twin_eq(ctx: &Ctx, bytes: &[u8], bi: &BootInformation) -> Option<String> {
+    let base = bi.start_address();
+    let mut twin = bytes.to_vec();
+    let walked = guarded(|| {
+        let mut flips: Vec<(usize, usize)> = Vec::new();
+        for t in bi.tags() {
+            let o = t as *const _ as *const u8 as usize - base;
+            let size = t.header().size as usize;
+            let typ: u32 = t.header().typ.into();
+            // only REAL padding: a tag that declares less than its kind's fixed fields (the cast accepts it when the rounded
+            // sizes agree) keeps fields behind its declared size - those bytes are not padding
+            const FIXED: [usize; 22] = [8, 8, 8, 16, 16, 20, 16, 784, 32, 20, 28, 12, 16, 16, 28, 44, 8, 16, 8, 12, 16, 12];
+            if (typ as usize) < FIXED.len() && size >= FIXED[typ as usize] {
+                flips.push((o + size, o + (size + 7) / 8 * 8));
+            }
+        }
+        flips
+    });
+    let flips = walked.ok()?;
+    let mut any = false;
+    for (a, b) in flips {
+        for i in a..b.min(twin.len()) {
+            twin[i] ^= 0xFF;
+            any = true;
+        }
+    }
+    if !any {
+        return None;
+    }
+    let q = ctx.arena2.place_end(&twin, 0);
+    let bj = guarded(|| unsafe { BootInformation::load(q.cast()) }).ok()?.ok()?;
+    let mut bad: Vec<&str> = Vec::new();
+    macro_rules! cmp {
+        ($name:expr, $g:ident) => {
+            if let (Ok(Some(x)), Ok(Some(y))) = (guarded(|| bi.$g()), guarded(|| bj.$g())) {
+                if guarded(|| x == y) == Ok(false) {
+                    bad.push($name);
+                }
+            }
+        };
+    }
+    // (ApmTag, BootdevTag and NetworkTag do not implement PartialEq)
+    cmp!("meminfo", basic_memory_info_tag);
+    cmp!("loader", boot_loader_name_tag);
+    cmp!("cmdline", command_line_tag);
+    cmp!("efi_bs", efi_bs_not_exited_tag);
+    cmp!("efi_ih32", efi_ih32_tag);
+    cmp!("efi_ih64", efi_ih64_tag);
+    cmp!("efi_mmap", efi_memory_map_tag);
+    cmp!("efi_sdt32", efi_sdt32_tag);
+    cmp!("efi_sdt64", efi_sdt64_tag);
+    cmp!("elf", elf_sections_tag);
+    cmp!("load_base", load_base_addr_tag);
+    cmp!("mmap", memory_map_tag);
+    cmp!("rsdp1", rsdp_v1_tag);
+    cmp!("rsdp2", rsdp_v2_tag);
+    cmp!("smbios", smbios_tag);
+    cmp!("vbe", vbe_info_tag);
+    if let (Ok(Some(Ok(x))), Ok(Some(Ok(y)))) = (guarded(|| bi.framebuffer_tag()), guarded(|| bj.framebuffer_tag())) {
+        if guarded(|| x == y) == Ok(false) {
+            bad.push("fb");
+        }
+    }
+    let ma: Vec<_> = guarded(|| bi.module_tags().collect::<Vec<_>>()).ok()?;
+    let mb: Vec<_> = guarded(|| bj.module_tags().collect::<Vec<_>>()).ok()?;
+    if ma.len() == mb.len() && ma.iter().zip(mb.iter()).any(|(x, y)| guarded(|| x == y) == Ok(false)) {
+        bad.push("modules");
+    }
+    if bad.is_empty() {
+        None
+    } else {
+        Some(bad.join(","))
+    }
 }
 
 /// ELFNAME <es> <n> <shndx> <hex entries> <hex string table>
